@@ -149,3 +149,14 @@ Example ex_join_permanent_run :
   (length (steps_of (sc1 None None 0) script), verdict_of (sc1 None None 0) script,
    final_is_permanent (sc1 None None 0) script) = (1%nat, VPermanent, true).
 Proof. vm_compute. reflexivity. Qed.
+
+(* ---- several requests through one sender ------------------------------------------------------------------ *)
+(* three requests: two are waiting in their first back-off (entered at 0 and at 3 ms) when shutdown comes at
+   25 ms, the third is sent at 40 ms, after shutdown: all three end shutdown-classified after ONE attempt,
+   and each used the initial interval *)
+Example ex_sender_shutdown :
+  let rq t := {| rq_start := t; rq_sc := sc1 None None 0; rq_script := script1 |} in
+  map (fun p => (length (fst p), snd p, map s_cur (fst p)))
+      (sender_runs cfg1 0 (Some (25 * ms)) [rq 0; rq (3 * ms); rq (40 * ms)]) =
+  [ (1%nat, VShutdown, [20 * ms]); (1%nat, VShutdown, [20 * ms]); (1%nat, VShutdown, [20 * ms]) ].
+Proof. vm_compute. reflexivity. Qed.
